@@ -1,6 +1,199 @@
-(* C08 - placeholder, being written *)
+(* C08 - Activating and reading arbitrary tags terminates safely.
+   Only statements here; proofs are in Proofs/TagSafeAct.v, TagSafeTlv.v, TagSafeBlk.v, TagSafeDep.v.
+   Models: Model/TagAct.v (activation), Model/TagReadAny.v (Type 1/2 readers = Model/T2T.v, T1T.v after the repairs
+   fixes/c08-12..16), Model/TagReadAnyB.v (Type 3/4 readers after the repairs fixes/c08-03..10 over a scripted
+   responder, re-using the parts of Model/T3T.v, T4T.v, IsoDep.v that did not change).
+
+   em            everything the Type 1/2 memory reader can load (a tag that stops answering = a shorter em)
+   air / chan    the outcomes of the clf.exchange() / IsoDepInitiator.exchange() calls in the order they are made
+   tlv_sound     tag, length field and value of the reported NDEF TLV lie inside the data area, the value was read from
+                 non-reserved addresses, length <= capacity
+   t3_sound / ... length <= capacity, only blocks / file offsets of the data area were read *)
 From Coq Require Import ZArith List Bool.
-From NV Require Import Base.Result Base.Bytes Model.TagAct.
+From NV Require Import Base.Result Base.Bytes Model.TlvMem Model.T2T Model.T1T Model.IsoDep Model.T3T Model.T4T
+  Model.TagAct Model.TagReadAny Model.TagReadAnyB
+  Proofs.IsoDepStream Proofs.TagSafeAct Proofs.TagSafeTlv Proofs.TagSafeBlk Proofs.TagSafeDep.
 Import ListNotations.
 Open Scope Z_scope.
-Example C08_nonvacuous : ats_fsci_fwi [2; 0] = Ok (0, 4). Proof. reflexivity. Qed.
+
+(* ================================================================ readers *)
+(* ---- Type 2: any readable memory - no NDEF, or a sound NDEF state; never Crash / Hang (the result is Ok) *)
+Theorem C08_t2_read_safe : forall em, bytes_ok em ->
+  t2_read_any em = Ok None \/
+  exists L, t2_read_any em = Ok (Some L) /\ tlv_sound em 16 L /\ l_dend L <= 2056.
+Proof. exact t2_read_safe. Qed.
+Print Assumptions C08_t2_read_safe.
+(* ... every octet is the content of a non-reserved address of the data area *)
+Theorem C08_tlv_sound_octets : forall em first L, 0 <= first -> tlv_sound em first L ->
+  forall i, (i < length (l_val L))%nat ->
+  exists p, first + 2 <= p < l_dend L /\ in_skip (l_skip L) p = false /\ nth_error (l_val L) i = nth_error em (Z.to_nat p).
+Proof. exact tlv_sound_octets. Qed.
+Print Assumptions C08_tlv_sound_octets.
+(* the instrumented reader computes the same result; its demand never exceeds the readable memory by more than the one
+   failing read (command bound in terms of what the tag delivers; bound in terms of the data area: see C08_t2_read_cmds) *)
+Theorem C08_t2_read_d_same : forall em, fst (t2_read_d em) = t2_read_any em.
+Proof. exact t2_read_d_fst. Qed.
+Print Assumptions C08_t2_read_d_same.
+Theorem C08_t2_demand_le : forall em, bytes_ok em -> snd (t2_read_d em) <= Z.max (len em + 1) 14.
+Proof. exact t2_demand_le. Qed.
+Print Assumptions C08_t2_demand_le.
+(* the repair is conservative: where the NDEF TLV fits, the reader of C01-C03 (Model/T2T.v) is unchanged *)
+Theorem C08_t2_conservative : forall em L, t2_read em = Ok (Some L) -> tlv_fits em L = true -> t2_read_any em = t2_read em.
+Proof. exact t2_read_any_conservative. Qed.
+Print Assumptions C08_t2_conservative.
+(* before the repair: 48 byte data area on a 96 byte tag, NDEF TLV of 60 bytes -> length 60 > capacity 46 *)
+Theorem C08_t2_unrepaired_refuted :
+  (exists L, t2_read ex_t2_overrun = Ok (Some L) /\ len (l_val L) = 60 /\ l_cap L = 46 /\ l_dend L = 64) /\
+  t2_read_any ex_t2_overrun = Ok None.
+Proof. exact t2_read_overrun_refuted. Qed.
+Print Assumptions C08_t2_unrepaired_refuted.
+
+(* ---- Type 1 (hr0 = header ROM byte 0) *)
+Theorem C08_t1_read_safe : forall hr0 em, bytes_ok em ->
+  t1_read_any hr0 em = Ok None \/
+  exists L, t1_read_any hr0 em = Ok (Some L) /\ tlv_sound (firstn 2048 em) 12 L /\ l_dend L <= 2048.
+Proof. exact t1_read_safe. Qed.
+Print Assumptions C08_t1_read_safe.
+(* at most RALL, READ8 and RSEG 1..15, the command that is not answered sent three times: 20 commands *)
+Theorem C08_t1_read_cmds : forall hr0 em, bytes_ok em ->
+  snd (t1_read_d hr0 em) <= 2049 /\ t1_cmds_max (snd (t1_read_d hr0 em)) <= 20.
+Proof. intros hr0 em H. split; [apply t1_demand_le, H | apply t1_read_cmds, H]. Qed.
+Print Assumptions C08_t1_read_cmds.
+(* before the repairs (Model/T1T.v): IndexError on a lock control TLV without value, Type1TagCommandError leaving
+   tag.ndef when the value runs past the memory, length 256 > capacity 218 *)
+Theorem C08_t1_unrepaired_refuted :
+  t1_read 17 ex_t1_short_lock = Crash IndexErr /\ (exists L, t1_read_any 17 ex_t1_short_lock = Ok (Some L) /\ l_val L = []) /\
+  t1_read 17 ex_t1_beyond = Err (TagCommandError 0) /\ t1_read_any 17 ex_t1_beyond = Ok None /\
+  (exists L, t1_read 18 ex_t1_overrun = Ok (Some L) /\ len (l_val L) = 256 /\ l_cap L = 218) /\
+  t1_read_any 18 ex_t1_overrun = Ok None.
+Proof. exact t1_read_legacy_refuted. Qed.
+Print Assumptions C08_t1_unrepaired_refuted.
+
+(* ---- Type 3: any responder script - the result is Ok, no NDEF or a sound NDEF state; at most 3 frames for
+        polling, the attribute block and each block of the data area (Nmaxb <= 65535) *)
+Theorem C08_t3_read_safe : forall idm sys s, air_ok s -> len idm = 8 ->
+  exists f s' idm' sys' nb nmaxb, t3_read_ndef idm sys s = (Ok f, s', (idm', sys')) /\ air_ok s' /\ len idm' = 8 /\
+    a_blocks s' = nb ++ a_blocks s /\ t3_sound f nb /\
+    0 <= nmaxb <= 65535 /\ sent s' <= sent s + 3 * (2 + nmaxb) /\ (forall r w cap d, f = Ndef r w cap d -> cap = 16 * nmaxb).
+Proof. exact t3_read_safe. Qed.
+Print Assumptions C08_t3_read_safe.
+Theorem C08_t3_unrepaired_refuted :
+  fst (t3_read_with_legacy ex_idm (mkAir [ex_rsp (ex_attr 0 4 10)] [] [])) = Crash RangeStep0 /\
+  fst (t3_read_with ex_idm (mkAir [ex_rsp (ex_attr 0 4 10)] [] [])) = Ok NoNdef /\
+  (exists d, fst (t3_read_with_legacy ex_idm (mkAir [ex_rsp (ex_attr 4 1 64); ex_rsp (repeat 7 64)] [] [])) = Ok (Ndef true true 16 d) /\ len d = 64) /\
+  fst (t3_read_with ex_idm (mkAir [ex_rsp (ex_attr 4 1 64); ex_rsp (repeat 7 64)] [] [])) = Ok NoNdef.
+Proof. exact t3_read_legacy_refuted. Qed.
+Print Assumptions C08_t3_unrepaired_refuted.
+
+(* ---- Type 4 (above the ISO-DEP layer): any card behaviour - the result is Ok, no NDEF or length <= capacity with
+        capacity inside the 16 bit offset range; at most 7 + capacity APDUs *)
+Theorem C08_t4_read_safe : forall c, chan_ok c -> c_reads c = [] ->
+  exists f oi c', t4_read_any c = (Ok (f, oi), c') /\ chan_ok c' /\
+    match f, oi with
+    | NoNdef, _ => True
+    | Ndef _ _ cap d, Some i => info_ok i /\ cap = i_cap i /\ len d <= cap /\ bytes_ok d
+    | Ndef _ _ _ _, None => False
+    end /\
+    napdu c' <= napdu c + 7 + Z.max 0 (match oi with Some i => i_cap i | None => 0 end).
+Proof. exact t4_read_safe. Qed.
+Print Assumptions C08_t4_read_safe.
+(* reading the NDEF file (also what has_changed does): every READ BINARY lies inside [0, nlen_size + capacity) *)
+Theorem C08_t4_read_file_safe : forall c i, chan_ok c -> info_ok i ->
+  exists f c' rs, read_with_any c i = (Ok f, c') /\ chan_ok c' /\ c_reads c' = rs ++ c_reads c /\ t4_sound f i rs /\
+    napdu c' <= napdu c + 2 + Z.max 0 (i_cap i).
+Proof. exact read_with_any_safe. Qed.
+Print Assumptions C08_t4_read_file_safe.
+Theorem C08_t4_unrepaired_refuted :
+  t4_fresh (ex_card 256 ([16; 0] ++ repeat 7 100)) = Hang /\
+  fst (t4_read_any (mkChan (script_of_card 256 ([16; 0] ++ repeat 7 100)) [] [])) = Ok (NoNdef, Some (mkInfo 59 52 254 true true 2 [225; 4] 12)) /\
+  (exists d, t4_fresh (ex_card 16 ([0; 64] ++ repeat 7 100)) = Ok (Ndef true true 14 d) /\ len d = 64) /\
+  fst (t4_read_any (mkChan (script_of_card 16 ([0; 64] ++ repeat 7 100)) [] [])) = Ok (NoNdef, Some (mkInfo 59 52 14 true true 2 [225; 4] 12)).
+Proof. exact t4_read_legacy_refuted. Qed.
+Print Assumptions C08_t4_unrepaired_refuted.
+(* ---- the ISO-DEP layer with the WTX repair against ANY responder that uses at most W waiting time extensions /
+        chained response blocks: a response or Type4TagCommandError, within the round bound of C12 *)
+Theorem C08_isodep_any_safe : forall k cmd, fix_wtx_try k = true -> fix_wtx_chain k = true -> fix_rack k = true ->
+  0 < miu k -> 0 <= n_nak k -> 0 <= n_ack k -> 0 < len cmd ->
+  forall pn s W fuel, (forall N, wild s N <= W) -> (CC k + 1) * (len cmd + 2 + W) + CC k <= Z.of_nat fuel ->
+  goodr (run_stream_any fuel k cmd (pcd_start k cmd pn) s 0).
+Proof. exact isodep_any_safe. Qed.
+Print Assumptions C08_isodep_any_safe.
+
+(* ================================================================ activation *)
+Theorem C08_dispatch_total : forall sens sel, len sens = 2 -> len sel = 1 -> exists k, tag_dispatch_a sens sel = Ok k.
+Proof. exact dispatch_total. Qed.
+Print Assumptions C08_dispatch_total.
+(* answer to select: parameters or ProtocolError (which nfc.tag.activate turns into None) *)
+Theorem C08_ats_total : forall ats,
+  (exists fsci fwi, ats_fsci_fwi ats = Ok (fsci, fwi) /\ (bytes_ok ats -> 0 <= fsci <= 15 /\ 0 <= fwi <= 15))
+  \/ ats_fsci_fwi ats = Err ProtocolError.
+Proof. exact ats_total. Qed.
+Print Assumptions C08_ats_total.
+(* every standard-conformant answer to select (any subset of TA(1) TB(1) TC(1), any historical bytes) is read as
+   ISO/IEC 14443-4 defines it *)
+Theorem C08_ats_build_parse : forall fsci ta tb tc hist, 0 <= fsci <= 15 ->
+  ats_fsci_fwi (ats_build fsci ta tb tc hist) = Ok (fsci, match tb with Some b => Z.shiftr b 4 | None => 4 end).
+Proof. exact ats_build_parse. Qed.
+Print Assumptions C08_ats_build_parse.
+Theorem C08_t4a_activate_sane : forall rats max_send max_recv p, t4a_activate rats max_send max_recv = Some p ->
+  (forall d, rats = ARx d -> bytes_ok d) ->
+  a_fsc p <= max_send /\ a_miu p = a_fsc p - 3 /\ 0 <= a_fwti p <= 14 /\ 0 <= a_retry p <= 5.
+Proof. exact t4a_activate_sane. Qed.
+Print Assumptions C08_t4a_activate_sane.
+Theorem C08_ats_unrepaired_refuted :
+  t4a_activate_legacy (ARx [2; 0]) 256 256 = Crash IndexErr /\
+  t4a_activate_legacy (ARx [3; 32; 129]) 256 256 = Crash IndexErr /\
+  t4a_activate_legacy (ARx [1]) 256 256 = Crash IndexErr /\
+  (exists p, t4a_activate_legacy (ARx [4; 96; 161; 2]) 256 256 = Ok (Some p) /\ a_fwti p = 0) /\
+  (exists p, t4a_activate (ARx [4; 96; 161; 2]) 256 256 = Some p /\ a_fwti p = 10).
+Proof. exact ats_legacy_crash. Qed.
+Print Assumptions C08_ats_unrepaired_refuted.
+Theorem C08_sensb_total : forall sensb attrib max_send max_recv,
+  (len sensb < 12 /\ t4b_activate sensb attrib max_send max_recv = None) \/
+  (12 <= len sensb /\ exists po, t4b_activate sensb attrib max_send max_recv = Some (attrib_cmd sensb max_recv, po) /\
+     len (attrib_cmd sensb max_recv) = 9 /\
+     ((exists d, attrib = ARx d) <-> po <> None) /\
+     (forall p, po = Some p -> bytes_ok sensb ->
+        a_fsc p <= max_send /\ a_miu p = a_fsc p - 3 /\ 0 <= a_fwti p <= 14 /\ 0 <= a_retry p <= 5)).
+Proof. exact sensb_total. Qed.
+Print Assumptions C08_sensb_total.
+Theorem C08_rid_total : forall rid,
+  let '(c, uid) := t1_activate rid in
+  uid = slice rid 2 6 /\ len uid <= 4 /\
+  (c = Topaz <-> slice rid 0 2 = [17; 72]) /\ (c = Topaz512 <-> slice rid 0 2 = [18; 76]).
+Proof. exact rid_total. Qed.
+Print Assumptions C08_rid_total.
+Theorem C08_sensf_total : forall sensf, 17 <= len sensf ->
+  t3_activate sensf = Ok None \/
+  exists t, t3_activate sensf = Ok (Some t) /\ len (t3_idm t) = 8 /\ len (t3_pmm t) = 8 /\
+            (len sensf < 19 -> t3_sys t = 65535) /\ (bytes_ok sensf -> 0 <= t3_sys t <= 65535).
+Proof. exact sensf_total. Qed.
+Print Assumptions C08_sensf_total.
+(* GET_VERSION / Ultralight-C probing: a class or None after at most two commands and three sense() calls,
+   whatever the tag answers and whenever it leaves *)
+Theorem C08_version_total : forall sdd0 xs ss, let '(_, xs', ss') := t2_activate sdd0 xs ss in
+  (length xs - length xs' <= 2 /\ length ss - length ss' <= 3)%nat.
+Proof. exact version_total. Qed.
+Print Assumptions C08_version_total.
+Theorem C08_version_known : forall v c a, version_lookup version_map v = Some c -> (forall r, a <> ARx (175 :: r)) ->
+  a <> ATxErr -> a <> AProto -> fst (fst (t2_activate 4 [a; ARx v] [true])) = Some c.
+Proof. exact version_known. Qed.
+Print Assumptions C08_version_known.
+
+(* non-vacuity: concrete inputs meeting the hypotheses, with an NDEF result *)
+Definition ex_t2_ok : list Z := [4; 1; 2; 143; 4; 5; 6; 7; 0; 72; 0; 0; 225; 16; 6; 0; 1; 3; 160; 16; 68; 3; 3; 208; 0; 0; 254] ++ repeat 0 37.
+Example C08_nonvacuous :
+  bytes_ok ex_t2_ok /\ (exists L, t2_read_any ex_t2_ok = Ok (Some L) /\ l_val L = [208; 0; 0] /\ l_cap L = 41) /\
+  (exists L, t1_read_any 17 ([1; 2; 3; 4; 5; 6; 7; 0; 225; 16; 14; 0; 3; 3; 208; 0; 0; 254] ++ repeat 0 102) = Ok (Some L) /\ l_val L = [208; 0; 0]) /\
+  air_ok (mkAir [ex_rsp (ex_attr 4 1 10); ex_rsp (repeat 7 16)] [] []) /\
+  fst (t3_read_with ex_idm (mkAir [ex_rsp (ex_attr 4 1 10); ex_rsp (repeat 7 16)] [] [])) = Ok (Ndef true true 16 (repeat 7 10)) /\
+  fst (t4_read_any (mkChan (script_of_card 256 [0; 3] ++ [AOk [208; 0; 0; 144; 0]]) [] [])) =
+    Ok (Ndef true true 254 [208; 0; 0], Some (mkInfo 59 52 254 true true 2 [225; 4] 12)) /\
+  t4a_activate (ARx [2; 0]) 256 256 = Some (t4_params 0 4 256 256).
+Proof.
+  split; [apply bytes_okb_spec; vm_compute; reflexivity|].
+  split; [eexists; split; [vm_compute; reflexivity | split; reflexivity]|].
+  split; [eexists; split; [vm_compute; reflexivity | reflexivity]|].
+  split; [unfold air_ok, ex_rsp; cbn [a_script]; constructor; [apply bytes_okb_spec; vm_compute; reflexivity | constructor; [apply bytes_okb_spec; vm_compute; reflexivity | constructor]]|].
+  split; [vm_compute; reflexivity|]. split; vm_compute; reflexivity.
+Qed.
